@@ -264,16 +264,26 @@ size_t varintRLEGetRunCount(const uint8_t *src, size_t encodedSize) {
     size_t runs = 0;
 
     while (ptr < end) {
-        size_t runLen;
+        /* Both varints of a run must lie inside [ptr, end); a run cut short
+         * by encodedSize is not counted. */
+        const size_t avail = (size_t)(end - ptr);
+        uint64_t runLen;
         uint64_t value;
-        size_t consumed = varintRLEDecodeRun(ptr, &runLen, &value);
+        const varintWidth lenWidth =
+            varintTaggedGet(ptr, avail > 9 ? 9 : (int32_t)avail, &runLen);
+        if (lenWidth == 0 || runLen == 0) {
+            break;
+        }
 
-        if (runLen == 0 || consumed == 0) {
+        const size_t left = avail - lenWidth;
+        const varintWidth valueWidth = varintTaggedGet(
+            ptr + lenWidth, left > 9 ? 9 : (int32_t)left, &value);
+        if (valueWidth == 0) {
             break;
         }
 
         runs++;
-        ptr += consumed;
+        ptr += lenWidth + valueWidth;
     }
 
     return runs;
